@@ -320,6 +320,18 @@ func (w *World) sanity(t *Tree, after string) bool {
 	return true
 }
 
+func (w *World) hasUnmarshalable(m *Model) bool {
+	if w.vd.Name != "inf" {
+		return false
+	}
+	for _, e := range m.Entries() {
+		if w.vd.Unmarshalable(e.V) {
+			return true
+		}
+	}
+	return false
+}
+
 func (w *World) tree(i int) *Tree {
 	if i < 0 || i >= len(w.trees) {
 		return nil
@@ -1348,6 +1360,14 @@ func (w *World) opPersist(op *Op) {
 		t.flushFailedBefore = true
 		return
 	}
+	if fr.res.err != nil && w.cfg.Marshaler == "json" && w.hasUnmarshalable(t.model) {
+		// the tree holds a value the marshaler rejects: an error is the right answer
+		w.st.Probes["persist-rejected-unmarshalable-value"]++
+		if obs, r := w.observe(t.m); r.bad() || !sameStrs(obs, preObs) {
+			w.failFor("C01", "contents-mismatch/persist", "after MakeRoot rejected an unmarshalable value the tree changed: %s %s", r, firstDiff(obs, preObs))
+		}
+		return
+	}
 	if fr.res.err != nil {
 		if t.flushFailedBefore {
 			// liveness once faults stop: a retry with a healthy store must succeed
@@ -1366,6 +1386,12 @@ func (w *World) opPersist(op *Op) {
 		return
 	}
 	root := fr.root
+	if w.cfg.Marshaler == "json" && w.hasUnmarshalable(t.model) && wasDirty {
+		w.st.Probes["persist-accepted-unmarshalable-value"]++
+		if w.softFor("C08", "unmarshalable-value-persisted", "MakeRoot returned a root although the tree holds a value the marshaler rejects: the stored bytes cannot be a function of the entries") {
+			return
+		}
+	}
 	// C03 invariant 1: complete and durable (checked on the durable map = after a crash)
 	w.st.OracleEvals++
 	reach, obs, missing, r := w.reachByObservation(root, t.disk)
